@@ -83,9 +83,15 @@ def _us():
     return int(time.monotonic() * 1e6)
 
 
-def q_producer(q, p, n, size, conn, nowait=False):
+def q_producer(q, p, n, size, conn, nowait=False, signals=False):
     """events are streamed to the driver as they happen, so that a party that gets stuck in a
-    call still leaves its history behind; ('done', ...) ends the stream"""
+    call still leaves its history behind; ('done', ...) ends the stream.
+    signals: a periodic signal with a Python-level handler keeps arriving while the producer is
+    inside put() (a blocked write() that has transferred some bytes then returns short)"""
+    if signals:
+        import signal
+        signal.signal(signal.SIGALRM, lambda *a: None)
+        signal.setitimer(signal.ITIMER_REAL, 0.003, 0.003)
     for k in range(1, n + 1):
         item = (p, k, bytes([k % 251]) * size)
         while True:
@@ -106,6 +112,9 @@ def q_producer(q, p, n, size, conn, nowait=False):
                     return
                 conn.send(('ev', {'k': 'full', 'who': p, 'p': p, 'n': k, 't0': t0, 't1': _us(), 'to': 0}))
                 time.sleep(0.002)
+    if signals:
+        import signal
+        signal.setitimer(signal.ITIMER_REAL, 0, 0)
     conn.send(('done', 0))
     conn.close()
 
@@ -135,6 +144,8 @@ def q_consumer(q, c, n, size, conn, timeout=None, joinable=False, delay=0.0):
             bad += 1
         conn.send(('ev', {'k': 'get', 'who': c, 'p': p, 'n': k, 't0': t0, 't1': t1, 'to': 0}))
         got += 1
+        if delay and not joinable:
+            time.sleep(delay)
         if joinable:
             if delay:
                 time.sleep(delay)
